@@ -1404,6 +1404,12 @@ class Interp:
                     return cv
             if name == '__name__':
                 return obj.name
+            if name == '__new__':
+                def _new(cls, *a, **k):
+                    o = Obj(cls.name, module=cls.module, fresh=True)
+                    self.allocated.append(o)
+                    return o
+                return Builtin('__new__', _new)
             raise Unsupported(f'class attribute {obj.name}.{name}')
         if isinstance(obj, ModuleVal):
             return self.methods.module_attr(self, obj, name)
